@@ -130,6 +130,15 @@ func genSqlCfg(r *rng, prop string, tier string) SqlCfg {
 		c.AbortFocus = true
 		c.PAbort = 0.5
 		c.Slots = 1 + r.Intn(2)
+		if r.Chance(0.25) {
+			// eviction pressure: a heap larger than the frames that are not pinned for good, so that pages
+			// a transaction changed are evicted before it aborts, and pages the abort restored are evicted
+			// again before anything else touches them
+			c.Tables = []TableSpec{{Name: "t0", Cols: []Col{{"k", TInt}, {"a", TVarchar}}, Wide: 200}}
+			c.Frames = 0
+			c.InitRows = 120 + r.Intn(120)
+			c.PRestart, c.PCrashRestart = 0, 0
+		}
 	case "C07":
 		c.PAbort = 0.3
 		c.PRestart = 0.04
